@@ -220,6 +220,14 @@ def run(ctx):
             r4.violation(key, "window argument is %s" % show(s.expr[2][1], 60), s.loc)
     r4.floor(6, "window facts")
 
+    # ---- R5 a yielding higher-priority session is not overtaken -------------------------------------------
+    r5 = ctx.rule("C13.R5", "a session that has a ready object returns None from run() only to let a pending FDT instance out; since "
+                            "Sender::read takes the first Some in priority order, strict priority then requires that *every* object "
+                            "session yields while an FDT is pending: every path of SenderSession::run to encoder.read()/new_alc_pkt "
+                            "passes the not-pending edge of need_transfer_fdt() (same analysis as C11.R2)", "MPT under assumption")
+    from . import c11
+    c11.fdt_pending_gate(ctx, r5)
+
 
 def arm_int_match(func, scrut_regex):
     """for `match <int scrutinee> {0 => c, n => ..}`: {matched value: constant assigned in the arm}"""
